@@ -4,7 +4,9 @@ import (
 	"crypto/tls"
 	"encoding/json"
 	"fmt"
+	"net"
 
+	"github.com/bfenetworks/bfe/bfe_server"
 	"github.com/bfenetworks/bfe/bfe_tls"
 
 	"verifharness/vh"
@@ -144,16 +146,69 @@ func damageCache(caches map[int]*memCache, sid []byte, how string) {
 	}
 }
 
+// memListener is the inner net.Listener of the HttpsListener: Accept hands out the server end of the
+// next in-memory connection.
+type memListener struct{ ch chan net.Conn }
+
+func (l *memListener) Accept() (net.Conn, error) { return <-l.ch, nil }
+func (l *memListener) Close() error              { return nil }
+func (l *memListener) Addr() net.Addr            { return pipeAddr{} }
+
+// server is the TLS front of one history: a bfe_server.HttpsListener.  A change of the ticket key goes
+// through the server's reload entry point UpdateSessionTicketKey (what SessionTicketKeyReload calls
+// with the decoded key file); any other configuration change is a restart with the key in use.
+type server struct {
+	inner *memListener
+	hl    *bfe_server.HttpsListener
+	spec  ServerSpec
+	key   int
+}
+
+func sameButKey(a, b ServerSpec) bool {
+	a.Key, b.Key = 0, 0
+	x, _ := json.Marshal(a)
+	y, _ := json.Marshal(b)
+	return string(x) == string(y)
+}
+
+func (s *server) epoch(sv *ServerSpec, caches map[int]*memCache) {
+	restarted := false
+	if s.hl == nil || !sameButKey(s.spec, *sv) {
+		restarted = true
+		start := *sv
+		if s.hl != nil {
+			start.Key = s.key // restart with the key file as it is, the rotation follows
+		}
+		s.inner = &memListener{ch: make(chan net.Conn, 1)}
+		s.hl = bfe_server.NewHttpsListener(s.inner, buildServer(&start, caches))
+		s.key = start.Key
+	}
+	if sv.Key != s.key || !restarted { // a reload of the key file, rotated or identical
+		s.hl.UpdateSessionTicketKey(ticketKeyFile(sv.Key))
+		s.key = sv.Key
+	}
+	s.spec = *sv
+}
+
+func (s *server) serverFor(sc net.Conn) *bfe_tls.Conn {
+	s.inner.ch <- sc
+	c, err := s.hl.VerifTlsnegAccept()
+	if err != nil {
+		panic(err)
+	}
+	return c.(*bfe_tls.Conn)
+}
+
 func resumeOne(c *resCase) []interface{} {
 	caches := map[int]*memCache{}
-	var cfg *bfe_tls.Config
+	srv := &server{}
 	var saved *savedSess
 	out := make([]interface{}, len(c.Steps))
 	for i := range c.Steps {
 		st := &c.Steps[i]
 		switch st.Op {
 		case "epoch":
-			cfg = buildServer(st.Sv, caches)
+			srv.epoch(st.Sv, caches)
 			out[i] = map[string]string{"op": "epoch"}
 		case "conn":
 			var so stepObs
@@ -197,7 +252,7 @@ func resumeOne(c *resCase) []interface{} {
 					so.Offered = true
 				}
 			}
-			r := runConn(cfg, st.Cl, goOffer, rawOffer, vh.Seed()*1000003+int64(c.ID)*16+int64(i))
+			r := runConnVia(srv.serverFor, st.Cl, goOffer, rawOffer, vh.Seed()*1000003+int64(c.ID)*16+int64(i))
 			so.Obs = r.obs
 			out[i] = so
 			if so.SessKind == "sid" && (st.Tamper == "cache-trunc" || st.Tamper == "cache-evict") {
